@@ -10,7 +10,7 @@ CONSTANTS
   AsIs_D1 = FALSE
   AsIs_D4 = FALSE
   AsIs_D7 = TRUE
-  Scenarios = {1, 2, 3, 4}
+  Scenarios = {0, 1}
+  GenLen = 2
 INVARIANT Linearizable
-
 CHECK_DEADLOCK FALSE
